@@ -283,7 +283,7 @@ Proof.
   - destruct Hw as [->|[r1 ->]]; [exact Hslash|]. cbn [nonempty]. apply path_match_segment.
 Qed.
 
-Lemma retry_target_covered e q : let mp := matching_path (e_paths e) (q_path q) in
+Lemma retry_target_covered e q : let mp := e_mp e (q_path q) in
   mp = [] \/ wf_path mp -> wf_path (q_path q) ->
   (q_ep q = EpCallback \/ q_ep q = EpLogoutCallback \/ seg_prefix mp (q_path q)) ->
   path_match (q_path (retry_target e q)) (if cf_sso_server (e_cfg e) then slash else eff_path mp) = true.
@@ -298,4 +298,56 @@ Proof.
   - rewrite Hc. cbn [q_path]. apply Ho.
   - rewrite Hc. cbn [q_path]. apply Ho.
   - destruct (q_ep q); cbn [q_path]; try apply Ho; now apply covers_segment.
+Qed.
+
+(* ------------------------------------------------------------------ variant a1203b1: MatchingPath on segment boundaries *)
+
+Lemma has_path_prefix_seg req p : has_path_prefix req p = true -> req = p \/ exists r, req = p ++ 47%N :: r.
+Proof.
+  unfold has_path_prefix. intros H. apply orb_prop in H as [H|H].
+  - left. now apply beq_eq.
+  - right. apply has_prefix_spec in H as [r ->]. exists r. now rewrite <- app_assoc.
+Qed.
+
+Lemma matching_path_go_seg paths req : forall result,
+  seg_prefix result req -> seg_prefix (matching_path_go true paths req result) req.
+Proof.
+  induction paths as [|p r IH]; intros result Hr; cbn [matching_path_go]; [exact Hr|].
+  destruct (negb (nonempty p)); [now apply IH|].
+  destruct (path_prefix_test true req p && Nat.ltb (length result) (length p)) eqn:E; [|now apply IH].
+  apply IH. apply andb_prop in E as [E _]. cbn [path_prefix_test] in E.
+  destruct (has_path_prefix_seg _ _ E) as [->|H]; [right; now left|right; now right].
+Qed.
+
+(* with the fix, the matching path is by construction a prefix of the request path on a segment boundary *)
+Lemma matching_path_seg paths req : seg_prefix (matching_path true paths req) req.
+Proof. unfold matching_path. apply matching_path_go_seg. now left. Qed.
+
+Lemma retry_target_covered_seg e q : let mp := e_mp e (q_path q) in
+  cf_seg_prefix (e_cfg e) = true -> mp = [] \/ wf_path mp -> wf_path (q_path q) ->
+  path_match (q_path (retry_target e q)) (if cf_sso_server (e_cfg e) then slash else eff_path mp) = true.
+Proof.
+  intros mp Hs Hw Hq. apply retry_target_covered; [exact Hw|exact Hq|]. right. right.
+  unfold mp, e_mp. rewrite Hs. apply matching_path_seg.
+Qed.
+
+(* ------------------------------------------------------------------ variant c75583b: Max-Age = ceil(window seconds) *)
+
+(* the window rounded up to whole seconds: never shorter than the window, longer by less than a second *)
+Lemma window_seconds_ceil c : cf_rl_ceil c = true -> 0 < cf_rl_window c ->
+  0 < window_seconds c /\
+  cf_rl_window c <= window_seconds c * jsecond < cf_rl_window c + jsecond.
+Proof.
+  intros Hc Hw. unfold window_seconds, jsecond. rewrite Hc.
+  assert (E : 0 <=? cf_rl_window c = true) by (apply Z.leb_le; lia). rewrite E. cbn [andb].
+  rewrite Z.quot_div_nonneg by lia.
+  pose proof (Z.div_mod (cf_rl_window c + 999999999) 1000000000 ltac:(lia)) as Hd.
+  pose proof (Z.mod_pos_bound (cf_rl_window c + 999999999) 1000000000 ltac:(lia)) as Hm.
+  lia.
+Qed.
+
+(* the old code for comparison: truncation, which is 0 for every window below one second *)
+Lemma window_seconds_trunc c : cf_rl_ceil c = false -> 0 <= cf_rl_window c < jsecond -> window_seconds c = 0.
+Proof.
+  intros Hc Hw. unfold window_seconds, jsecond in *. rewrite Hc. cbn [andb]. apply Z.quot_small. lia.
 Qed.
